@@ -99,8 +99,10 @@ Definition set_mode (s : p1state) (m : mode) : p1state :=
 Definition set_org (s : p1state) (z : Z) : p1state :=
   {| loc := int32 z; bmode := bmode s; sym := sym s; mac := mac s; dollar := uint32 (dollar s + z); globals := globals s;
      externs := externs s; fmt := fmt s; srcfile := srcfile s; ocodes := ocodes s; diag := diag s; stuck := stuck s |}.
+Definition dedup_append (acc : list string) (g : list string) : list string :=
+  fold_left (fun a n => if existsb (String.eqb n) a then a else a ++ [n]) g acc.
 Definition add_globals (s : p1state) (g : list string) : p1state :=
-  {| loc := loc s; bmode := bmode s; sym := sym s; mac := mac s; dollar := dollar s; globals := globals s ++ g;
+  {| loc := loc s; bmode := bmode s; sym := sym s; mac := mac s; dollar := dollar s; globals := dedup_append (globals s) g;
      externs := externs s; fmt := fmt s; srcfile := srcfile s; ocodes := ocodes s; diag := diag s; stuck := stuck s |}.
 Definition set_fmt (s : p1state) (f : list Z) : p1state :=
   {| loc := loc s; bmode := bmode s; sym := sym s; mac := mac s; dollar := dollar s; globals := globals s;
@@ -206,8 +208,8 @@ Definition do_jcc (s : p1state) (name : string) (ops : list exp) : p1state :=
           | ESeg _ l (Some r) =>
               let est := match bmode s with M16 => 8 | M32 => 7 end in
               match get_const l, get_const r with
-              | Some sv, Some ov => push_ocode (add_loc s est) (if String.eqb name "JMP" then OJmpFar sv ov else OInstr (name ++ "_FAR")%string [])
-              | _, _ => push_ocode (add_loc s est) (if String.eqb name "JMP" then OJmpFarText else OInstr (name ++ "_FAR")%string [])
+              | Some sv, Some ov => if String.eqb name "JMP" then push_ocode (add_loc s est) (OJmpFar sv ov) else set_diag (add_loc s est)
+              | _, _ => if String.eqb name "JMP" then push_ocode (add_loc s est) OJmpFarText else set_diag (add_loc s est)
               end
           | ESeg _ l None => push_ocode (add_loc (set_diag s) 7) (OJcc name JText)
           | EImm (FId lbl) =>
@@ -232,9 +234,9 @@ Definition do_int (s : p1state) (ops : list exp) : p1state :=
 
 Definition kind_known (name : string) : bool := existsb (String.eqb name) ocode_kinds.
 
-(* Emit rejects lines whose first word is not an OcodeKind; every caller drops the error *)
+(* Emit rejects lines whose first word is not an OcodeKind; callers drop the returned error, Emit itself reports it *)
 Definition emit (s : p1state) (name : string) (o : ocode) : p1state :=
-  if kind_known name then push_ocode s o else s.
+  if kind_known name then push_ocode s o else set_diag s.       (* Emit logs the rejected line at error level *)
 
 (** ---------- the statement step (traverse.go) ---------- *)
 
@@ -280,7 +282,7 @@ Definition do_mnemonic (s : p1state) (op : string) (ops : list exp) : p1state :=
         match enc_est E (bmode s) op ops with
         | None => set_diag s
         | Some n => let s1 := add_loc (with_diag s (enc_diag E (bmode s) op ops)) n in
-                    if enc_kind_ok E op then push_ocode s1 (OInstr op ops) else s1
+                    if enc_kind_ok E op then push_ocode s1 (OInstr op ops) else set_diag s1
         end
   end.
 
@@ -373,8 +375,8 @@ Definition gen_ocode (m : mode) (st : symtab) (dol : Z) (len : Z) (o : ocode) : 
                      | None => BytesDiag []       (* "not implemented" error from processOcode *)
                      end
   | OInt v => match v with
-              | Some z => if in_range (-128) 127 z then Bytes [205; z mod 256] else EPanic
-              | None => EPanic
+              | Some z => if in_range 0 255 z then Bytes [205; z] else BytesDiag []     (* ParseUint(...,10,8) fails: error logged, nothing emitted *)
+              | None => BytesDiag []
               end
   | ORet => Bytes [195]
   | OInstr mn ops => enc_emit E m st mn ops
